@@ -65,6 +65,10 @@ def compare_with_twin(ctx, res, w):
                 ctx.violation('wrapped body of an intercepted %s executed %d times (must be exactly once)' % (x['io'], len(bodies)), dict(w, decl=x['decl']))
                 break
             be = bodies[0]
+            tbodies = [e for e in T.journal.events if e['ev'] == 'body' and e.get('call_n') == y['n'] and e['decl'] == y['decl']]
+            if len(tbodies) == 1 and tbodies[0].get('ambient') != be.get('ambient'):
+                ctx.violation('the wrapped body ran while another exception was being handled than in the twin (sys.exc_info() visible to the service differs)',
+                              dict(w, decl=x['decl'], decorated=be.get('ambient'), twin=tbodies[0].get('ambient')))
             if not teq(list(be['args']), list(x['args'])) or not teq(be['kwargs'], x['kwargs']):
                 ctx.violation('wrapped body received other arguments than the caller passed', dict(w, decl=x['decl']))
             if ox.kind != oy.kind or (ox.kind == 'exc' and type(ox.value) is not type(oy.value)):
